@@ -14,8 +14,8 @@ def affinityDivPerThread : Nat := 16
 def sizeTypeBits : Nat := 64
 def floatMantBits : Nat := 24
 def doubleMantBits : Nat := 53
-def sel2Guarded : Bool := false
-def sel3Guarded : Bool := false
-def selNdGuarded : Bool := false
+def sel2Guarded : Bool := true
+def sel3Guarded : Bool := true
+def selNdGuarded : Bool := true
 
 end TbbVerif.Generated.C05
